@@ -473,7 +473,10 @@ def main():
     if args.only:
         wanted = [h for h in wanted if re.search(args.only, h)]
     if args.jobs is None:
-        args.jobs = int(os.environ.get("VERIF_JOBS", cfg.get("jobs", 16)))
+        j = cfg.get("jobs", 16)
+        if isinstance(j, dict):
+            j = j.get(tier, 16)
+        args.jobs = int(os.environ.get("VERIF_JOBS", j))
     timeout_s = args.timeout or cfg.get("timeout_s", {}).get(tier, 1500 if tier == "quick" else 3000)
     evidence_path = os.path.join(os.environ.get("VERIF_EVIDENCE_DIR", os.path.join(VERIF, "evidence")), "%s.json" % prop)
     os.makedirs(os.path.dirname(evidence_path), exist_ok=True)
